@@ -165,6 +165,24 @@ def run_order(gtext, order, with_seq, by_chrom, tmp, gz=False, default_order=Fal
     return res
 
 
+def run_order_subprocess(gtext, order, with_seq, tmp, hashseed):
+    """the same run in a fresh interpreter with another PYTHONHASHSEED; returns {chromosome: written GFA text}"""
+    src = os.path.join(tmp, "hs.gfa")
+    gen.write_text(src, gtext)
+    out = os.path.join(tmp, "hs_out")
+    shutil.rmtree(out, ignore_errors=True)
+    code = ("import sys,logging; logging.disable(logging.CRITICAL)\n"
+            "from gaftools.cli import order_gfa\n"
+            "order_gfa.run_order_gfa(sys.argv[1], sys.argv[2], by_chrom=True, chromosome_order=sys.argv[3], with_sequence=(sys.argv[4]=='1'))\n")
+    env = dict(os.environ, PYTHONHASHSEED=str(hashseed))
+    subprocess.run(["/venv/bin/python", "-c", code, src, out, ",".join(order), "1" if with_seq else "0"], env=env,
+                   stdout=subprocess.DEVNULL, stderr=subprocess.DEVNULL, timeout=300)
+    res = {}
+    for f in glob.glob(os.path.join(out, "*.gfa")):
+        res[os.path.basename(f).rsplit(".", 1)[0].split("-", 1)[1]] = open(f).read()
+    return res
+
+
 def check_layout(txt):
     """all S lines precede all L lines"""
     kinds = [l[0] for l in txt.splitlines() if l]
@@ -318,6 +336,19 @@ def main(prop):
                             k2_seen += 1
                         else:
                             ck.violation("BO/NO of %s depend on the order of lines / on stale BO/NO tags" % c, dict(replay, gfa2=g2, tags1=a, tags2=b))
+            if prop == "C06" and (it % (20 if quick else 5) == 3) and not default_order:
+                # the assignment must not depend on set iteration order: same input under other PYTHONHASHSEEDs (sub-processes)
+                few = {sp["name"] for sp in r["spec"] if sp["aps"] < 2}
+                for hs in (1, 2, 3):
+                    other = run_order_subprocess(gtext, order, with_seq, tmp, hs)
+                    ck.count("hashseed-rerun")
+                    for c in order:
+                        if c in few:
+                            continue
+                        canon = lambda t: None if t is None else ([l for l in t.splitlines() if l.startswith("S")], sorted(l for l in t.splitlines() if l.startswith("L")))
+                        if canon(other.get(c)) != canon(res["files"].get(c)):
+                            ck.violation("output for %s differs under PYTHONHASHSEED=%d" % (c, hs), dict(replay, hashseed=hs, chromosome=c))
+                            break
             if prop == "C07":
                 complete_check(ck, gtext, order, with_seq, res, tmp, replay)
             if prop == "C18" and any(broken.values()):
